@@ -198,12 +198,14 @@ impl Lockstep {
                     1 => 1,
                     _ => 1 + p.below(size2 as u64) as usize,
                 };
-                let max_skew = 65535 - size2;
-                let skew2 = match p.below(5) {
+                // the skew table has 65535 entries and the highest index used is skew_delta + size - 2
+                let max_skew = 65536 - size2;
+                let skew2 = match p.below(6) {
                     0 => 0,
                     1 => pos2 + size2,
                     2 => 1 + p.below(7) as usize,
                     3 => (1usize << p.below(16)).min(max_skew),
+                    4 => max_skew - p.below(3).min(max_skew as u64) as usize,
                     _ => p.below(max_skew as u64 + 1) as usize,
                 };
                 self.shadow_transform(prim, &snapshot, count, len64, pos2, size2, trunc2, skew2);
